@@ -293,6 +293,8 @@ def run(prog, R):
     # ---- C05.4 one node per application: a node opened around an already parsed operand (`lhs.precede(p)`: binary,
     # index, call, cast-like postfix forms) is completed before control can loop, so that `a[i][j]`, `a+b+c`, ..
     # nest (one node per operator application, as in the derivation) instead of flattening into one node
+    import shapes as _shapes
+    MH_ = _shapes.marker_helpers(prog)      # private functions that are handed the open marker and always close it
     npre = 0
     for b in prog.by_crate["oq3_parser"]:
         if not b.npath.startswith("oq3_parser::grammar::"):
@@ -300,7 +302,7 @@ def run(prog, R):
         pres = [bi for bi, t in b.calls() if (b.callee_of(t) or "").endswith("CompletedMarker::precede")]
         if not pres:
             continue
-        closes = {bi for bi, t in b.calls() if (b.callee_of(t) or "").endswith(("Marker::complete", "Marker::abandon"))}
+        closes = {bi for bi, t in b.calls() if (b.callee_of(t) or "").endswith(("Marker::complete", "Marker::abandon")) or (b.callee_of(t) or "") in MH_}
         succ = b.succ()
         for o, pb in enumerate(pres):
             npre += 1
@@ -420,6 +422,8 @@ def run(prog, R):
         c = eb.callee_of(t) or ""
         if c.endswith(("CompletedMarker::precede", "Parser::bump", "Marker::complete")) or c == EXPR_BP:
             seq.append((bi, c.split("::")[-1]))
+        elif c in _shapes.marker_helpers(prog):
+            seq.append((bi, "complete"))
     dom = eb.dominators()
     pre = [b for b, c in seq if c == "precede"]
     bump = [b for b, c in seq if c == "bump"]
@@ -428,6 +432,10 @@ def run(prog, R):
     R.ob("C05.4-binary-node-shape", "precede;bump(op);expr_bp;complete", ok, eb.at, f"call order in the operator loop: precede bb{pre}, bump bb{bump}, recursive expr_bp bb{[r[0] for r in rec]}, complete bb{comp}")
     kinds = set()
     for b0 in comp:
+        hc_ = eb.callee_of(eb.blocks[b0].term) or ""
+        if hc_ in _shapes.marker_helpers(prog):
+            kinds |= _shapes.marker_helpers(prog)[hc_]
+            continue
         o = origins(prog, eb, eb.blocks[b0].term["args"][2])
         kinds |= {x[2] for x in o if x[0] == "agg" and x[1] == SK}
     R.ob("C05.4-binary-node-shape", "completed-kinds", kinds == {"BIN_EXPR", "ASSIGNMENT_STMT"}, eb.at, f"nodes completed after the right operand: {sorted(kinds)}")
